@@ -399,7 +399,7 @@ def _conv_fn(F, self_suffix, from_sub):
     return out
 
 
-def r4_conversions(ctx, F, table):
+def r4_conversions(ctx, F, table, floor=True):
     conv = table["conversions"]
     for name, spec in sorted(conv.items()):
         b = None
@@ -434,7 +434,8 @@ def r4_conversions(ctx, F, table):
         ctx.sample({"conversion": name, "fields": {k: vf.render(strip(x), b, short=True) for k, x in list(got.items())[:4]}})
         if os.environ.get("FBR_DEBUG"):
             print(name, json.dumps({k: vf.render(strip(x), b, short=True) for k, x in got.items()}, indent=1))
-    ctx.floor("R4-conv", 50)
+    if floor:
+        ctx.floor("R4-conv", 50)
 
 
 def strip(e):
